@@ -45,62 +45,6 @@ RULE += (' ' +
          'active session (5 protocols x negotiated or pinned x spawned or '
          'not x 4 call sequences) must raise InvalidState and leave spawned, '
          'connected, context version, reactor, socket, stream, thread and '
-         'queue unchanged. ')
-RULE += (' ' +
-         'Added in later rounds: servers that close inside a frame; '
-         'reconnects from handlers without a disconnect first; disconnect '
-         'while the thread is blocked inside a frame of a stalled server; '
-         '1100 (thorough 3000) sessions each started from a listener of the '
-         'previous one; component refused: connect()/status() on a quiescent '
-         'active session (5 protocols x negotiated or pinned x spawned or '
-         'not x 4 call sequences) must raise InvalidState and leave spawned, '
-         'connected, context version, reactor, socket, stream, thread and '
-         'queue unchanged. ')
-RULE += (' ' +
-         'Added in later rounds: servers that close inside a frame; '
-         'reconnects from handlers without a disconnect first; disconnect '
-         'while the thread is blocked inside a frame of a stalled server; '
-         '1100 (thorough 3000) sessions each started from a listener of the '
-         'previous one; component refused: connect()/status() on a quiescent '
-         'active session (5 protocols x negotiated or pinned x spawned or '
-         'not x 4 call sequences) must raise InvalidState and leave spawned, '
-         'connected, context version, reactor, socket, stream, thread and '
-         'queue unchanged. Round 12: component status_poller - status() '
-         're-issued 1-5 times from the latency callback, then connect() or '
-         'disconnect()+connect() from it. ')
-RULE += (' ' +
-         'Added in later rounds: servers that close inside a frame; '
-         'reconnects from handlers without a disconnect first; disconnect '
-         'while the thread is blocked inside a frame of a stalled server; '
-         '1100 (thorough 3000) sessions each started from a listener of the '
-         'previous one; component refused: connect()/status() on a quiescent '
-         'active session (5 protocols x negotiated or pinned x spawned or '
-         'not x 4 call sequences) must raise InvalidState and leave spawned, '
-         'connected, context version, reactor, socket, stream, thread and '
-         'queue unchanged. Round 12: component status_poller - status() '
-         're-issued 1-5 times from the latency callback, then connect() or '
-         'disconnect()+connect() from it. ')
-RULE += (' ' +
-         'Added in later rounds: servers that close inside a frame; '
-         'reconnects from handlers without a disconnect first; disconnect '
-         'while the thread is blocked inside a frame of a stalled server; '
-         '1100 (thorough 3000) sessions each started from a listener of the '
-         'previous one; component refused: connect()/status() on a quiescent '
-         'active session (5 protocols x negotiated or pinned x spawned or '
-         'not x 4 call sequences) must raise InvalidState and leave spawned, '
-         'connected, context version, reactor, socket, stream, thread and '
-         'queue unchanged. Round 12: component status_poller - status() '
-         're-issued 1-5 times from the latency callback, then connect() or '
-         'disconnect()+connect() from it. ')
-RULE += (' ' +
-         'Added in later rounds: servers that close inside a frame; '
-         'reconnects from handlers without a disconnect first; disconnect '
-         'while the thread is blocked inside a frame of a stalled server; '
-         '1100 (thorough 3000) sessions each started from a listener of the '
-         'previous one; component refused: connect()/status() on a quiescent '
-         'active session (5 protocols x negotiated or pinned x spawned or '
-         'not x 4 call sequences) must raise InvalidState and leave spawned, '
-         'connected, context version, reactor, socket, stream, thread and '
          'queue unchanged. Round 12: component status_poller - status() '
          're-issued 1-5 times from the latency callback, then connect() or '
          'disconnect()+connect() from it. Round 15: component dead_peer - '
@@ -108,7 +52,10 @@ RULE += (' ' +
          'networking thread parked in a listener (found the defect repaired '
          'by 265c040); component exit_reconnect - the exit callback '
          'reconnects after each of 1-4 kicks, a user connect()/status() on '
-         'the resulting session is refused and disturbs nothing. ')
+         'the resulting session is refused and disturbs nothing. Round 16: '
+         'component thread_start - the OS refuses to start the networking '
+         'thread of one or two connect()/status() calls (RuntimeError), '
+         'disconnect(), then a session that must be served. ')
 LEVEL_TEXT = ('Exploration of call histories x server behaviours x thread '
               'schedules under a deterministic scheduler, with a '
               'three-valued model (definitely active / definitely ended / '
